@@ -7,6 +7,11 @@
 //   numberOfPhsInclusions, isInAnyPhs, keepSample.
 // * The rotation of a PHS lives behind a pimpl; it is recovered column by column through
 //   transform() at a large transverse diameter (R does not depend on the diameter).
+// * The direct sampler's private RNG draws are made injectable for the model without touching the code: the harness
+//   seeds sampler.rng_ (setLocalSeed) and an identically seeded twin ompl::RNG; the per-iteration draw order of
+//   samplePhsRejectBounds is fixed (uniform01 for randomPhsPtr if >1 PHS, uniformInBall, uniform01 for keepSample if
+//   >1 PHS), so the twin yields the draw stream the real call will consume; the number of iterations the real call
+//   made is read off by advancing the twin until its mt19937 state equals the sampler's.
 // * Scripted base sampler: a RealVectorStateSpace subclass whose default sampler pops states from a
 //   queue (so the rejection loops run in lock-step with the model) or falls back to the real one.
 #include "common/proto.h"
@@ -14,6 +19,7 @@
 #include <atomic>
 #include <chrono>
 #include <cmath>
+#include <cstdlib>
 #include <condition_variable>
 #include <deque>
 #include <functional>
@@ -28,6 +34,10 @@
 #include <stdexcept>
 #include <thread>
 #include <vector>
+// RNG::generator_ is needed to replay the direct sampler's private draws with a twin generator
+#define private public
+#include <ompl/util/RandomNumbers.h>
+#undef private
 #include <ompl/base/State.h>
 #include <ompl/base/StateSpace.h>
 #include <ompl/base/StateSampler.h>
@@ -72,6 +82,7 @@ struct Script
     unsigned long used = 0;
 };
 static Script g_script;
+static bool g_leaky = false;
 
 class ScriptedSampler : public ob::RealVectorStateSampler
 {
@@ -710,6 +721,163 @@ int main()
                     std::cout << op << " found=" << found << " used=" << g_script.used << " x="
                               << (g_script.used ? vecBits(allReals(w, w.st)) : std::string("-")) << "\n";
             }
+            else if (op == "nball" && t.size() == 3 && vp::parseNat(t[1]) && *vp::parseNat(t[1]) <= 400 && vp::parseBits(t[2]))
+            {
+                std::cout << "nball ~m=" << bits(ompl::nBallMeasure(*vp::parseNat(t[1]), *vp::parseBits(t[2]))) << "\n";
+            }
+            else if ((op == "supp" || op == "sup" || op == "sup3") && w.direct && w.skind == "direct" && w.kind == "rv" &&
+                     t.size() >= (op == "sup3" ? 4u : 3u) && vp::parseNat(t[1]))
+            {
+                // PHS-sampling branch with replayed private draws.  supp <seed> <c>: print the draw stream (harness only);
+                // sup <seed> <c> <draws…> / sup3 <seed> <minc> <c> <draws…>: real call, lock-step with the model
+                unsigned seed = *vp::parseNat(t[1]);
+                double c, minc = 0;
+                size_t ci = op == "sup3" ? 3 : 2;
+                if (!parseCost(t[ci], c) || !std::isfinite(c) || (op == "sup3" && !parseCost(t[2], minc)) || seed == 0)
+                {
+                    std::cout << "bad-op\n";
+                    continue;
+                }
+                w.direct->updatePhsDefinitions(ob::Cost(c));
+                bool boundsBranch = w.direct->informedSubSpace_->getMeasure() <
+                                    w.direct->summedMeasure_ / static_cast<double>(w.direct->listPhsPtrs_.size());
+                if (boundsBranch)
+                {
+                    std::cout << op << " bounds-branch\n";
+                    continue;
+                }
+                size_t k = w.direct->listPhsPtrs_.size();
+                unsigned lim = w.direct->numIters_;
+                ompl::RNG twin(seed);
+                std::vector<double> stream;
+                for (unsigned it = 0; it < lim; ++it)
+                {
+                    double r1 = k > 1 ? twin.uniform01() : 0.0;
+                    std::vector<double> v(w.n);
+                    twin.uniformInBall(1.0, v);
+                    double r2 = k > 1 ? twin.uniform01() : 0.0;
+                    stream.push_back(r1);
+                    stream.insert(stream.end(), v.begin(), v.end());
+                    stream.push_back(r2);
+                }
+                if (op == "supp")
+                {
+                    std::cout << "supp k=" << k << " draws=" << vecBits(stream) << "\n";
+                    continue;
+                }
+                size_t i = ci + 1;
+                std::vector<double> given;
+                if (!takeVec(t, i, stream.size(), given) || i != t.size())
+                {
+                    std::cout << "bad-op\n";
+                    continue;
+                }
+                bool same = true;
+                for (size_t a = 0; a < stream.size(); ++a)
+                    if (bits(given[a]) != bits(stream[a]))
+                        same = false;
+                if (!same)
+                {
+                    std::cout << op << " draws-mismatch\n";
+                    continue;
+                }
+                w.direct->rng_.setLocalSeed(seed);
+                bool found = op == "sup" ? w.direct->sampleUniform(w.st, ob::Cost(c))
+                                         : w.direct->sampleUniform(w.st, ob::Cost(minc), ob::Cost(c));
+                // how many iterations did the real call make?  advance a second twin until the generators agree
+                ompl::RNG twin2(seed);
+                long used = -1;
+                for (unsigned it = 0; it <= lim; ++it)
+                {
+                    if (twin2.generator_ == w.direct->rng_.generator_)
+                    {
+                        used = it;
+                        break;
+                    }
+                    if (k > 1)
+                        twin2.uniform01();
+                    std::vector<double> v(w.n);
+                    twin2.uniformInBall(1.0, v);
+                    if (k > 1)
+                        twin2.uniform01();
+                }
+                std::cout << op << " found=" << found << " used=" << used << " ~x=" << (found ? vecBits(allReals(w, w.st)) : std::string("-"))
+                          << " inb=" << (found ? (w.space->satisfiesBounds(w.st) ? "1" : "0") : "-") << "\n";
+            }
+            else if (op == "iss" && w.smp && w.kind == "rv" && (w.skind == "direct" || w.skind == "rej") && t.size() == 2)
+            {
+                // InformedStateSampler wrapper over the current informed sampler, cost function = constant c
+                double c;
+                if (!parseCost(t[1], c))
+                {
+                    std::cout << "bad-op\n";
+                    continue;
+                }
+                if (w.direct && std::isfinite(c))
+                {
+                    w.direct->updatePhsDefinitions(ob::Cost(c));
+                    bool boundsBranch = w.direct->informedSubSpace_->getMeasure() <
+                                        w.direct->summedMeasure_ / static_cast<double>(w.direct->listPhsPtrs_.size());
+                    if (!boundsBranch)
+                    {
+                        std::cout << "iss phs-branch\n";
+                        continue;
+                    }
+                }
+                ob::InformedStateSampler iss(w.pdef, [c]() { return ob::Cost(c); }, w.smp);
+                g_script.on = true;
+                g_script.used = 0;
+                bool starved = false;
+                try
+                {
+                    iss.sampleUniform(w.st);
+                }
+                catch (Starved &)
+                {
+                    starved = true;
+                }
+                g_script.on = false;
+                if (starved)
+                    std::cout << "iss starved\n";
+                else
+                    std::cout << "iss used=" << g_script.used << " x=" << vecBits(allReals(w, w.st)) << " inb="
+                              << w.space->satisfiesBounds(w.st) << "\n";
+            }
+            else if (op == "im2" && w.smp && t.size() == 3 && vp::parseBits(t[1]) && vp::parseBits(t[2]))
+            {
+                // InformedSampler::getInformedMeasure(minCost, maxCost): difference of the one-bound measures (direct);
+                // the rejection sampler overrides it with the space measure
+                double m = w.smp->getInformedMeasure(ob::Cost(*vp::parseBits(t[1])), ob::Cost(*vp::parseBits(t[2])));
+                std::cout << "im2 ~m=" << bits(m) << "\n";
+            }
+            else if (op == "osu" && w.ord && w.skind == "ord-rej" && w.kind == "rv" && t.size() == 2)
+            {
+                // OrderedInfSampler over the rejection sampler, scripted base draws: queue, batches, top/pop in lock-step
+                double c;
+                if (!parseCost(t[1], c))
+                {
+                    std::cout << "bad-op\n";
+                    continue;
+                }
+                g_script.on = true;
+                g_script.used = 0;
+                bool found = false, starved = false;
+                try
+                {
+                    found = w.ord->sampleUniform(w.st, ob::Cost(c));
+                }
+                catch (Starved &)
+                {
+                    starved = true;
+                    g_leaky = true;   // createBatch's scratch state leaks when the scripted sampler throws (harness artefact)
+                }
+                g_script.on = false;
+                if (starved)
+                    std::cout << "osu starved\n";
+                else
+                    std::cout << "osu found=" << found << " used=" << g_script.used << " x="
+                              << (found ? vecBits(allReals(w, w.st)) : std::string("-")) << " q=" << w.ord->orderedSamples_.size() << "\n";
+            }
             else if ((op == "bulk" || op == "bulk3") && w.smp && t.size() == (op == "bulk" ? 3u : 4u) &&
                      vp::parseNat(t.back()))
             {
@@ -769,5 +937,10 @@ int main()
         w.ord->clearBatch();
     if (w.st)
         w.space->freeState(w.st);
+    if (g_leaky)
+    {
+        std::cout.flush();
+        std::_Exit(0);
+    }
     return 0;
 }
